@@ -337,7 +337,7 @@ func init() {
 		assume: []string{
 			"the fake dispatcher refuses a second registration of a live vchannel like Milvus' client does, so a second start shows as an error / a second register event rather than as duplicated rows",
 		},
-		nCases: func(r *vf.Run) int { return r.Pick(72, 1800) },
+		nCases: func(r *vf.Run) int { return r.Pick(72, 600) },
 		gen: func(seed int64, idx int) *Case {
 			o := dmlOpts
 			o.packsMin, o.packsMax = 6, 12
@@ -418,9 +418,9 @@ func init() {
 			}
 		},
 		floors: func(run *vf.Run) {
-			run.Floor("cases_quiescent", run.Pick(24, 600))
-			run.Floor("simultaneous_calls", run.Pick(120, 3000))
-			run.Floor("repeated_calls", run.Pick(24, 600))
+			run.Floor("cases_quiescent", run.Pick(24, 200))
+			run.Floor("simultaneous_calls", run.Pick(120, 1000))
+			run.Floor("repeated_calls", run.Pick(24, 200))
 		}}
 	props["C02"] = &propDef{level: "exploration", rule: dmlRule, assume: dmlAssume, workers: 6, conc: 6,
 		nCases: func(r *vf.Run) int { return r.Pick(300, 6000) },
